@@ -78,10 +78,11 @@ class Ctx:
         self.seed = seed
         self.level = level
         self.t0 = time.time()
-        self.work = os.path.join(VERIF, ".work", pid)
+        # a check that runs other checks as donors (C34, C01) gives them a private work/evidence area
+        self.work = os.path.join(VERIF, ".work", pid + os.environ.get("VERIF_WORK_SUFFIX", ""))
         shutil.rmtree(self.work, ignore_errors=True)
         os.makedirs(self.work, exist_ok=True)
-        self.replay_dir = os.path.join(VERIF, ".work", "replay")
+        self.replay_dir = os.path.join(VERIF, ".work", "replay" + os.environ.get("VERIF_WORK_SUFFIX", ""))
         os.makedirs(self.replay_dir, exist_ok=True)
         self.violations = []   # (sig, msg, replay)
         self.known_hits = {}   # finding id -> count
@@ -174,7 +175,8 @@ class Ctx:
         cmd += [module]
         e = dict(os.environ)
         jto = e.get("JAVA_TOOL_OPTIONS", "")
-        opts = ["-Xss256m"]
+        os.makedirs(os.path.join(d, "jtmp"), exist_ok=True)
+        opts = ["-Xss256m", "-Djava.io.tmpdir=" + os.path.join(d, "jtmp")]
         if dfs:
             opts.append("-Dtlc2.tool.queue.IStateQueue=StateDeque")
         e["JAVA_TOOL_OPTIONS"] = (jto + " " + " ".join(opts)).strip()
@@ -199,6 +201,7 @@ class Ctx:
                               "wall_s": round(res.wall, 1), "mode": "simulate" if simulate else "bfs"})
         self.log("TLC %s: %d generated, %d distinct, %.1fs" % (tag, res.generated, res.distinct, res.wall))
         shutil.rmtree(meta, ignore_errors=True)
+        shutil.rmtree(os.path.join(d, "jtmp"), ignore_errors=True)
         return res
 
     # -------------------------------------------------------------- violations
@@ -251,8 +254,9 @@ class Ctx:
             "coverage": cov, "assumptions": (assumptions or []) + self.assumptions,
             "wall_s": round(time.time() - self.t0, 2), "violations": len(self.violations),
         }
-        os.makedirs(os.path.join(VERIF, "evidence"), exist_ok=True)
-        with open(os.path.join(VERIF, "evidence", self.pid + ".json"), "w") as fh:
+        evdir = os.environ.get("VERIF_EVIDENCE_DIR") or os.path.join(VERIF, "evidence")
+        os.makedirs(evdir, exist_ok=True)
+        with open(os.path.join(evdir, self.pid + ".json"), "w") as fh:
             json.dump(ev, fh, indent=1, default=str)
         for k in self.known_findings():
             if k.get("status") == "known" and self.known_hits.get(k["id"]):
